@@ -370,6 +370,7 @@ def ob_wiring(report):
         def m_cfg(ex, p, call, k):
             k(p, Sym('CFG_' + call.short.split('::')[-1], 'Option<Duration>'))
         ex = e2.executor('anemo', [(r'Config::(inbound|outbound)_request_timeout$', m_cfg)], max_depth=1, unroll=1, fixed_bounds=True)
+        e2.require_methods(ex.prog, ('Config', 'inbound_request_timeout'), ('Config', 'outbound_request_timeout'))
         ex.path_limit = 20000
         fn = find_method(ex.prog, 'Builder', 'start')
         bf = struct_fields('crates/anemo/src/network/mod.rs', 'Builder')
@@ -380,8 +381,9 @@ def ob_wiring(report):
 
         def layer_pred(side):
             def pred(v):
-                if isinstance(v, Agg) and v.name == 'TimeoutLayer' and v.fields and vname(v.fields[0]) == f'CFG_{side}_request_timeout':
-                    return True
+                if isinstance(v, Agg) and v.name == 'TimeoutLayer' and v.fields and any(
+                        derives_from(f_, lambda x: isinstance(x, Sym) and x.name == f'CFG_{side}_request_timeout') for f_ in v.fields):
+                    return True         # the configured value itself, or a private representation computed from it
                 if isinstance(v, Sym):
                     fr = v.get_ov('from')
                     if fr is not None and re.search(side + r'::TimeoutLayer::new$', fr[0]) and fr[1] and vname(fr[1][0]) == f'CFG_{side}_request_timeout':
